@@ -43,10 +43,11 @@ func (b migBeh) wellBehaved() bool {
 }
 
 type startSpec struct {
-	Reg      string         `json:"reg"`      // one char per migration: m mandatory, e optional enabled, d optional disabled
-	CancelAt int            `json:"cancelAt"` // tick during which the context is cancelled (0 = before Run, 999 = never)
-	CrashAt  int            `json:"crashAt"`  // tick right after which the process dies (0 = before Run, 999 = never)
-	Beh      map[int]migBeh `json:"beh"`      // default: complete
+	Reg      string         `json:"reg"`              // one char per migration: m mandatory, e optional enabled, d optional disabled
+	CancelAt int            `json:"cancelAt"`         // tick during which the context is cancelled (0 = before Run, 999 = never)
+	CrashAt  int            `json:"crashAt"`          // tick right after which the process dies (0 = before Run, 999 = never)
+	Beh      map[int]migBeh `json:"beh"`              // default: complete
+	FailAt   int            `json:"failAt,omitempty"` // the runner write that would be this tick fails (0 = never)
 }
 
 type diskSpec struct {
@@ -197,15 +198,16 @@ func (m *scriptMig) Migrate(ctx context.Context, database db.KeyValueStore, _ *n
 // ---- one start on the real code --------------------------------------------------------
 
 type startResult struct {
-	open    string // ok | optout | downgrade | error
-	result  string // ok | err   (of Run)
-	crashed bool
-	disk    string
-	calls   string
-	obs     map[int]*observed
-	orderV  string
-	hang    bool
-	panicS  string
+	open         string // ok | optout | downgrade | error
+	result       string // ok | err   (of Run)
+	crashed      bool
+	disk         string
+	calls        string
+	obs          map[int]*observed
+	orderV       string
+	hang         bool
+	panicS       string
+	failedWrites int
 }
 
 func readDisk(d db.KeyValueReader) (string, migration.SchemaMetadata, bool, map[int][]byte) {
@@ -259,6 +261,13 @@ func realStart(d *memory.Database, sp startSpec) startResult {
 	defer cancel()
 	sr := &startRun{spec: sp, store: store, cancel: cancel, ctx: ctx, obs: map[int]*observed{}}
 	store.hook = func(int, *faultStore) { sr.onTick() }
+	store.pre = func() bool {
+		if sp.FailAt > 0 && sr.tick+1 == sp.FailAt {
+			sr.tick++ // the failed attempt is the tick
+			return true
+		}
+		return false
+	}
 	reg := buildRegistry(sp.Reg, func(i int) migration.Migration { return &scriptMig{idx: i, sr: sr} })
 	runner, err := migration.NewRunner(reg, store, &networks.Mainnet, log.NewNopZapLogger())
 	if err != nil {
@@ -299,6 +308,7 @@ func realStart(d *memory.Database, sp startSpec) startResult {
 	}
 	store.mu.Lock()
 	out.crashed = store.dead
+	out.failedWrites = store.failed
 	store.mu.Unlock()
 	out.disk, _, _, _ = readDisk(d)
 	out.calls = strings.Join(sr.calls, ",")
@@ -332,6 +342,9 @@ func (sp startSpec) modelLine(obs map[int]*observed) string {
 	reg := sp.Reg
 	if reg == "" {
 		reg = "-"
+	}
+	if sp.FailAt > 0 {
+		toks = append(toks, fmt.Sprintf("fail=%d", sp.FailAt))
 	}
 	return strings.TrimSpace(fmt.Sprintf("run %s %d %d %s", reg, sp.CancelAt, sp.CrashAt, strings.Join(toks, " ")))
 }
@@ -524,10 +537,16 @@ func (h *harness) runnerHistoryCase(hist runnerHistory, family string) bool {
 				violate("runner-runs-migration-outside-target", fmt.Sprintf("start %d: migration %d called but not in target", si, i))
 			}
 		}
+		if sp.FailAt > 0 && r.failedWrites > 0 && r.result == "ok" && !r.crashed {
+			violate("runner-swallows-failed-write", fmt.Sprintf("start %d: the runner's write at tick %d failed and Run returned nil", si, sp.FailAt))
+		}
+		if r.failedWrites > 0 {
+			res.Hit("runner-write-failed")
+		}
 		if wellBehaved && r.orderV != "" {
 			violate("runner-order-violated", fmt.Sprintf("start %d: %s", si, r.orderV))
 		}
-		if sp.CrashAt >= 1 && uint64(after.LastTargetVersion) != t {
+		if sp.CrashAt >= 1 && sp.FailAt != 1 && uint64(after.LastTargetVersion) != t {
 			violate("last-target-not-recorded", fmt.Sprintf("start %d: LastTargetVersion=%b after a run with target %b", si, uint64(after.LastTargetVersion), t))
 		}
 		if uint64(after.CurrentVersion)&^(curB|t) != 0 {
